@@ -1346,8 +1346,8 @@ class LiveThirdStep:
     """Runs the wrapped monitors on the THIRD message of three-message histories executed on one live
     object: state s --c1--> live --c2--> live --c3--> checked.  c1: up to `first_per_kind` changing
     messages per class and state (the transitions the explorer executes anyway); c2: up to
-    `second_per_kind` changing messages per class; c3: `third_per_kind` messages per class, spread evenly
-    over the menu of the state reached (None = the whole menu).  Covers what needs two earlier merges on
+    `second_per_kind` changing messages per class; c3: every message of c1's class plus `third_per_kind` messages
+    of every other class, spread evenly over the menu of the state reached (None = the whole menu).  Covers what needs two earlier merges on
     the same object to show: a cache filled by the first message and made stale by the second."""
 
     def __init__(self, inner, second_harness, third_harness, first_per_kind=1, second_per_kind=1, third_per_kind=4,
@@ -1367,7 +1367,9 @@ class LiveThirdStep:
         self._plans = {}
         self.touch_before = any(getattr(m, 'touch_before', False) for m in inner)
 
-    def _spread(self, cases):
+    def _spread(self, cases, first_kind=None):
+        """Third messages: every case of the class of the FIRST message (what a first message caches, a later message of
+        the same class is the one to read back) and `third_per_kind` cases of every other class, spread evenly."""
         if self.third_per_kind is None:
             return cases
         by = {}
@@ -1376,7 +1378,7 @@ class LiveThirdStep:
         out = []
         for k, cs in by.items():
             n = self.third_per_kind
-            if len(cs) <= n:
+            if len(cs) <= n or k == first_kind:
                 out.extend(cs)
             else:
                 idx = sorted({round(i * (len(cs) - 1) / (n - 1)) for i in range(n)}) if n > 1 else [0]
@@ -1452,7 +1454,7 @@ class LiveThirdStep:
                 continue
             if av2.base is None:
                 continue
-            for c3 in self._spread(list(self.third.menu(av2, _NullRes()))):
+            for c3 in self._spread(list(self.third.menu(av2, _NullRes())), kind):
                 m3 = self.third.render(c3, av2)
                 live, outs, mobj3 = replay([ctx.msg, m2, m3])
                 if len(outs) < 3:
